@@ -6,6 +6,7 @@ package obfs4
 
 import (
 	"bytes"
+	"crypto/sha512"
 	"encoding/hex"
 	"errors"
 	"fmt"
@@ -19,11 +20,13 @@ import (
 
 	"gitlab.torproject.org/tpo/anti-censorship/pluggable-transports/goptlib"
 
+	"gitlab.com/yawning/obfs4.git/internal/verifkit/detrand"
 	"gitlab.com/yawning/obfs4.git/internal/verifkit/drive"
 	"gitlab.com/yawning/obfs4.git/internal/verifkit/ev"
 	"gitlab.com/yawning/obfs4.git/internal/verifkit/refntor"
 	"gitlab.com/yawning/obfs4.git/internal/verifkit/refobfs4"
 	"gitlab.com/yawning/obfs4.git/internal/verifkit/wire"
+	"gitlab.com/yawning/obfs4.git/internal/x25519ell2"
 	"gitlab.com/yawning/obfs4.git/transports/base"
 )
 
@@ -166,13 +169,35 @@ func vfReleaseResponse(rt *rapid.T, n *wire.Net, s wire.Side, respLen int, label
 	return vfReleaseChunks(rt, n, s, label, wait...)
 }
 
+// vfRejectingKeySeeds returns n 32-byte strings which, handed to ntor.NewKeypair
+// by the CSPRNG, give key candidates without an Elligator representative.
+var (
+	vfRejOnceK sync.Once
+	vfRejK     [][]byte
+)
+
+func vfRejectingKeySeeds(n int) [][]byte {
+	vfRejOnceK.Do(func() {
+		for j := uint64(0); len(vfRejK) < 64; j++ {
+			s := detrand.Bytes(0xc0200000000+j, 32)
+			digest := sha512.Sum512(s)
+			var priv, pub, repr [32]byte
+			copy(priv[:], digest[:32])
+			if !x25519ell2.ScalarBaseMult(&pub, &repr, &priv, digest[63]) {
+				vfRejK = append(vfRejK, s)
+			}
+		}
+	})
+	return vfRejK[:n]
+}
+
 func vfC02Case(rt *rapid.T, c *ev.Collector) {
 	rk := rapid.Uint64().Draw(rt, "randKey")
 	defer vfRandSeedKey(rk)()
 	br, _ := vfGenBridge(rt, []int{0, 0, 0, 1})
 	ent := vfEnt(rapid.Uint64().Draw(rt, "refEntropy"))
 	legacy := rapid.Bool().Draw(rt, "legacyBridgeLine")
-	scenario := rapid.SampledFrom([]string{"genuine", "wrong-nodeid-bit", "wrong-pubkey-bit", "impostor", "tamper", "tamper", "retry-after-failure", "interleaved-handshakes", "genuine-skewed-clock"}).Draw(rt, "scenario")
+	scenario := rapid.SampledFrom([]string{"genuine", "wrong-nodeid-bit", "wrong-pubkey-bit", "impostor", "tamper", "tamper", "retry-after-failure", "interleaved-handshakes", "genuine-skewed-clock", "genuine-unlucky-rng"}).Draw(rt, "scenario")
 	endByDeadline := rapid.Bool().Draw(rt, "endByDeadline")
 	var desc string
 	segments := 1
@@ -273,6 +298,75 @@ func vfC02Case(rt *rapid.T, c *ev.Collector) {
 			segments = 3
 		}
 		desc = fmt.Sprintf("genuine x%d", conns)
+
+	case "genuine-unlucky-rng":
+		// The CSPRNG is scripted so that the next 32 key candidates of the client
+		// (session key, drawn in ParseArgs) or of the bridge (ephemeral key, drawn
+		// when the connection is wrapped) have no Elligator representative - an event
+		// of probability 2^-32 per key.  A genuine pair must still complete: giving up
+		// after so few candidates would drop genuine connections at a rate a
+		// deployment observes.  (A bound beyond 32 candidates is not judged.)
+		who := rapid.SampledFrom([]string{"client", "bridge"}).Draw(rt, "unluckySide")
+		desc = "genuine, 32 rejected key candidates scripted at the " + who
+		rej := vfRejectingKeySeeds(32)
+		sf, err := vfServerFactory(br)
+		if err != nil {
+			rt.Fatalf("VIOL[c02-serverfactory]: %v", err)
+		}
+		if who == "client" {
+			detrand.Script(rej)
+		}
+		cf, cargs, err := vfClientArgs(br, legacy, br.IAT)
+		detrand.ClearForced()
+		if err != nil {
+			rt.Fatalf("VIOL[c02-genuine-failed]: ParseArgs of a genuine bridge line failed after 32 unlucky key candidates: %v", err)
+		}
+		n := wire.New()
+		defer n.Shutdown()
+		if who == "bridge" {
+			detrand.Script(rej)
+		}
+		sv := drive.Start(n, wire.B, func() (net.Conn, error) { return sf.WrapConn(n.Conn(wire.B)) })
+		if err := n.WaitQuiescent(wire.B); err != nil {
+			rt.Fatalf("VIOL[c02-wedge]: %v", err)
+		}
+		cl := drive.Start(n, wire.A, func() (net.Conn, error) { return cf.Dial("tcp", "192.0.2.1:1", vfDialFn(n.Conn(wire.A)), cargs) })
+		if err := n.WaitQuiescent(wire.A, wire.B); err != nil {
+			rt.Fatalf("VIOL[c02-wedge]: %v", err)
+		}
+		n.ReleaseAll(wire.A)
+		if err := n.WaitQuiescent(wire.A, wire.B); err != nil {
+			rt.Fatalf("VIOL[c02-wedge]: %v", err)
+		}
+		detrand.ClearForced()
+		n.ReleaseAll(wire.B)
+		if err := n.WaitQuiescent(wire.A, wire.B); err != nil {
+			rt.Fatalf("VIOL[c02-wedge]: %v", err)
+		}
+		for name, ep := range map[string]*drive.Endpoint{"client": cl, "server": sv} {
+			if msg := vfEndpointFailure(name, ep); msg != "" {
+				rt.Fatalf("%s", msg)
+			}
+			if !ep.SetupDone() || ep.SetupErr() != nil {
+				rt.Fatalf("VIOL[c02-genuine-failed]: %s did not complete a genuine handshake when the %s's generator produced 32 key candidates without a representative in a row: done=%v err=%v", name, who, ep.SetupDone(), ep.SetupErr())
+			}
+		}
+		m1, m2 := vfCounterStream(0, 0, 300), vfCounterStream(1, 0, 500)
+		if r, _, _ := cl.Write(m1); r.Failed() || r.Err != nil {
+			rt.Fatalf("VIOL[c02-genuine-failed]: client write: %s", r)
+		}
+		if r, _, _ := sv.Write(m2); r.Failed() || r.Err != nil {
+			rt.Fatalf("VIOL[c02-genuine-failed]: server write: %s", r)
+		}
+		n.ReleaseAll(wire.A)
+		n.ReleaseAll(wire.B)
+		if err := n.WaitQuiescent(wire.A, wire.B); err != nil {
+			rt.Fatalf("VIOL[c02-wedge]: %v", err)
+		}
+		if !bytes.Equal(sv.Got(), m1) || !bytes.Equal(cl.Got(), m2) {
+			rt.Fatalf("VIOL[c02-session-keys-differ]: data does not flow after a genuine handshake with unlucky key generation (%s)", desc)
+		}
+		segments = 3
 
 	case "genuine-skewed-clock":
 		// A genuine client whose clock is in the previous / next hour (the
@@ -723,10 +817,10 @@ func vfC02Case(rt *rapid.T, c *ev.Collector) {
 func TestVerifC02Scenarios(t *testing.T) {
 	vfSetup(t)
 	c := ev.For("C02")
-	c.Rule("scenarios: generated identity, node ID, seed, bridge-line form and chunk plans; scenario in {retry-after-failure (one client factory: a first attempt fails because the network fails while the handshake is written / the server stays silent / EOF, then a second connection through the same factory must complete and must not reuse the representative already sent), genuine (1-3 sequential connections, echo both ways, all ephemeral representatives distinct; in a third of them the server speaks first with up to 16384 bytes queued behind response and seed frame, optionally after a short first read), genuine-skewed-clock (the reference client stamped with the previous / current / next hour against the real bridge: the reply must verify under the client's hour and data must flow), interleaved-handshakes (one client and one server factory; connection 1 parked with its handshake and/or its response held at the transport while 1-4 other connections handshake from start to end; all must complete with matching keys), one bit of the client's node ID / public key flipped (real server), impostor = reference server that knows the public bridge line only (AUTH from its own key, random AUTH, AUTH of another handshake, genuine AUTH with another Y', low-order Y'), tamper = modification of a genuine response in flight (blind: one bit of Y'|AUTH|M_S|MAC_S, a padding bit, insert / delete one byte, truncate, substitute another connection's response; informed: one bit of Y'|AUTH with mark and MAC recomputed from the public bridge line) with server payload queued behind it}; every server response is released with cuts drawn relative to its fields (inside MAC_S, inside the mark, at the Y' / AUTH boundaries, inside the seed frame behind it) before generic chunk plans; oracle: genuine => Dial/WrapConn succeed and data flows; otherwise, after the exchange ends by EOF or the fired client deadline, Dial has returned an error and zero application bytes surfaced; non-trivial = any non-genuine scenario or a genuine one delivered in >= 3 segments; fingerprint = scenario + parameters")
+	c.Rule("scenarios: generated identity, node ID, seed, bridge-line form and chunk plans; scenario in {retry-after-failure (one client factory: a first attempt fails because the network fails while the handshake is written / the server stays silent / EOF, then a second connection through the same factory must complete and must not reuse the representative already sent), genuine (1-3 sequential connections, echo both ways, all ephemeral representatives distinct; in a third of them the server speaks first with up to 16384 bytes queued behind response and seed frame, optionally after a short first read), genuine-unlucky-rng (the CSPRNG scripted so that the next 32 key candidates of the client or of the bridge have no Elligator representative; the genuine pair must still complete), genuine-skewed-clock (the reference client stamped with the previous / current / next hour against the real bridge: the reply must verify under the client's hour and data must flow), interleaved-handshakes (one client and one server factory; connection 1 parked with its handshake and/or its response held at the transport while 1-4 other connections handshake from start to end; all must complete with matching keys), one bit of the client's node ID / public key flipped (real server), impostor = reference server that knows the public bridge line only (AUTH from its own key, random AUTH, AUTH of another handshake, genuine AUTH with another Y', low-order Y'), tamper = modification of a genuine response in flight (blind: one bit of Y'|AUTH|M_S|MAC_S, a padding bit, insert / delete one byte, truncate, substitute another connection's response; informed: one bit of Y'|AUTH with mark and MAC recomputed from the public bridge line) with server payload queued behind it}; every server response is released with cuts drawn relative to its fields (inside MAC_S, inside the mark, at the Y' / AUTH boundaries, inside the seed frame behind it) before generic chunk plans; oracle: genuine => Dial/WrapConn succeed and data flows; otherwise, after the exchange ends by EOF or the fired client deadline, Dial has returned an error and zero application bytes surfaced; non-trivial = any non-genuine scenario or a genuine one delivered in >= 3 segments; fingerprint = scenario + parameters")
 	c.Assume("cryptographic strength (HMAC, X25519, SHA-256) is assumed; what is tested is that every check is wired in and bound to the right inputs")
 	for _, s := range []string{"genuine", "wrong-nodeid-bit", "wrong-pubkey-bit", "impostor", "tamper", "retry-after-failure"} {
-		c.Floor("scenario-"+s, 0.08)
+		c.Floor("scenario-"+s, 0.05)
 	}
 	rapid.Check(t, func(rt *rapid.T) { vfC02Case(rt, c) })
 	vfTamperMu.Lock()
